@@ -189,6 +189,23 @@ func hasLogMethods(v reflect.Value) bool {
 	return true
 }
 
+// hostFlagValue gives a read only access to the value of a flag defined by the host.
+type hostFlagValue struct{ flag.Value }
+
+func (v hostFlagValue) Set(string) error { return nil }
+
+func (v hostFlagValue) Get() interface{} {
+	if g, ok := v.Value.(flag.Getter); ok {
+		return g.Get()
+	}
+	return nil
+}
+
+func (v hostFlagValue) IsBoolFlag() bool {
+	b, ok := v.Value.(interface{ IsBoolFlag() bool })
+	return ok && b.IsBoolFlag()
+}
+
 // fixStdlib redefines interpreter stdlib symbols to use the standard input,
 // output and errror assigned to the interpreter. The changes are limited to
 // the interpreter only.
@@ -219,9 +236,49 @@ func fixStdlib(interp *Interpreter) {
 	interp.mapTypes[p["Scanln"]] = interp.mapTypes[reflect.ValueOf(fmt.Scanln)]
 
 	if p = interp.binPkg["flag"]; p != nil {
-		c := flag.NewFlagSet(os.Args[0], flag.PanicOnError)
+		// args returns the program name and the arguments of the interpreter.
+		args := func() (string, []string) {
+			if len(interp.args) == 0 {
+				return "", nil
+			}
+			return interp.args[0], interp.args[1:]
+		}
+		name, _ := args()
+		c := flag.NewFlagSet(name, flag.PanicOnError)
 		c.SetOutput(stderr)
+		if interp.hostArgs {
+			// The command line is shared with the host: the flags that it defines
+			// are accepted, and visible in read only mode.
+			flag.VisitAll(func(f *flag.Flag) {
+				c.Var(hostFlagValue{f.Value}, f.Name, f.Usage)
+				c.Lookup(f.Name).DefValue = f.DefValue
+			})
+		}
 		p["CommandLine"] = reflect.ValueOf(&c).Elem()
+
+		// The functions of the package operate on the CommandLine variable and
+		// on the arguments of the interpreter, instead of those of the host.
+		for sym, f := range p {
+			m, ok := reflect.TypeOf(c).MethodByName(sym)
+			if !ok || f.Kind() != reflect.Func || f.Type() != reflect.ValueOf(c).Method(m.Index).Type() {
+				continue
+			}
+			p[sym] = reflect.MakeFunc(f.Type(), func(in []reflect.Value) []reflect.Value {
+				return reflect.ValueOf(c).Method(m.Index).Call(in)
+			})
+		}
+		p["Parse"] = reflect.ValueOf(func() {
+			// Ignore errors: CommandLine is set for PanicOnError.
+			_, a := args()
+			_ = c.Parse(a)
+		})
+		usage := func() {
+			name, _ := args()
+			fmt.Fprintf(c.Output(), "Usage of %s:\n", name)
+			c.PrintDefaults()
+		}
+		c.Usage = func() { usage() }
+		p["Usage"] = reflect.ValueOf(&usage).Elem()
 	}
 
 	if p = interp.binPkg["log"]; p != nil {
